@@ -167,6 +167,8 @@ func Start(o Options) (*Srv, error) {
 		if !strings.Contains(err.Error(), "address already in use") {
 			return nil, err
 		}
+		// (the port went to somebody else between the probe and the listen - an ephemeral port of an outgoing
+		// connection, another process: another port is tried; start() has taken the hook of the failed one back)
 	}
 	return nil, err
 }
@@ -203,6 +205,9 @@ func start(o Options) (*Srv, error) {
 		select {
 		case err := <-s.done:
 			s.stopped = true
+			if o.Hook != nil {
+				ClearHookIf(o.Port, s.hookGen)
+			}
 			return nil, fmt.Errorf("server exited during start: %v", err)
 		default:
 		}
